@@ -39,6 +39,16 @@ pub fn identify_good_kmers<IntT: for<'a> UInt<'a>>(
         }
     }
 
+    #[cfg(feature = "verif-hooks")]
+    {
+        let mut entries: Vec<String> = start_kmers
+            .iter()
+            .map(|k| IntT::skalo_decode_kmer(*k, data_info.k_graph))
+            .collect();
+        entries.sort();
+        crate::verif_trace::lo_entries(all_kmers.len(), &entries);
+    }
+
     // exit program if no extremity found (eg, cases of weeded skf files)
     if start_kmers.is_empty() {
         log::error!("Error: there is no entry node in this graph, hence no variant.\n");
